@@ -241,14 +241,14 @@ type driver struct {
 	ps      *scall        // insink: the pending sink call
 	psStart int           // insink: position the batch was read at
 	gate    chan struct{} // head: the worker sleeps after a failure; closing the gate ends the sleep
-	bufQ    *qcall // head/accepted: the worker already sits in its next Query (no sleep on that path)
-	bufExit bool   // head/accepted: the worker already left the loop
+	bufQ    *qcall        // head/accepted: the worker already sits in its next Query (no sleep on that path)
+	bufExit bool          // head/accepted: the worker already left the loop
 
-	evs      []string // Coq events
-	obs      []string // Coq observations
-	o        oracle
-	tag      map[string]int
-	err      error
+	evs []string // Coq events
+	obs []string // Coq observations
+	o   oracle
+	tag map[string]int
+	err error
 }
 
 func posOf(s string) (int, bool) {
@@ -866,6 +866,15 @@ func main() {
 				c.Add(*cs)
 				return c.Finish(rule)
 			}
+			var srp SinkReplay
+			if err := FromJSON(c.Replay, &srp); err == nil && srp.Sink {
+				cs, err := runSink(srp)
+				if err != nil {
+					return err
+				}
+				c.Add(*cs)
+				return c.Finish(rule)
+			}
 			var rp Replay
 			if err := FromJSON(c.Replay, &rp); err != nil {
 				return err
@@ -908,6 +917,21 @@ func main() {
 				res[i].Stream = "corpus"
 			}
 			c.Add(*res[i])
+		}
+		// the real syslog sink on a scripted connection
+		ns := c.N(150)
+		sjobs := []SinkReplay{{Sink: true, Q0: 1, Accept: true, Batches: [][]int{{0, 1, 2}, {0, 1, 2}}}}
+		for i := 0; i < ns; i++ {
+			sjobs = append(sjobs, genSink(c.Rng.Fork()))
+		}
+		sres := make([]*Case, len(sjobs))
+		serrs := make([]error, len(sjobs))
+		Parallel(len(sjobs), 8, func(i int) { sres[i], serrs[i] = runSink(sjobs[i]) })
+		for i := range sjobs {
+			if serrs[i] != nil {
+				return serrs[i]
+			}
+			c.Add(*sres[i])
 		}
 		return c.Finish(rule)
 	})
